@@ -154,7 +154,18 @@ def handle_path_command(args: argparse.Namespace) -> None:  # noqa: PLR0912, D10
         sys.exit(1)
 
     indent = INDENT if args.pretty else None
-    json.dump(values, args.output, indent=indent)
+
+    # Serialize before writing anything, so a failure can't leave a partial
+    # result behind. The JSON encoder is recursive too.
+    try:
+        result = json.dumps(values, indent=indent)
+    except RecursionError as err:
+        if args.debug:
+            raise
+        sys.stderr.write(f"error: result is too deeply nested: {err}\n")
+        sys.exit(1)
+
+    args.output.write(result)
 
 
 def main() -> None:
